@@ -616,20 +616,7 @@ def compute_next_steps(
     )
 
     # First, we process the history and apply any alterations e.g. 'hide_prev_turn'
-    actual_history = []
-    for event in history:
-        if event["type"] == "hide_prev_turn":
-            # we look up the last `UtteranceUserActionFinished` event and remove everything after
-            end = len(actual_history) - 1
-            while (
-                end > 0 and actual_history[end]["type"] != "UtteranceUserActionFinished"
-            ):
-                end -= 1
-
-            assert actual_history[end]["type"] == "UtteranceUserActionFinished"
-            actual_history = actual_history[0:end]
-        else:
-            actual_history.append(event)
+    actual_history = _apply_history_alterations(history)
 
     steps_history = []
     for event in actual_history:
@@ -683,6 +670,26 @@ def compute_next_steps(
     return next_steps
 
 
+def _apply_history_alterations(history: List[dict]) -> List[dict]:
+    """Applies the alterations encoded in the history, e.g., 'hide_prev_turn'."""
+    actual_history = []
+    for event in history:
+        if event["type"] == "hide_prev_turn":
+            # we look up the last `UtteranceUserActionFinished` event and remove everything after
+            end = len(actual_history) - 1
+            while (
+                end > 0 and actual_history[end]["type"] != "UtteranceUserActionFinished"
+            ):
+                end -= 1
+
+            assert actual_history[end]["type"] == "UtteranceUserActionFinished"
+            actual_history = actual_history[0:end]
+        else:
+            actual_history.append(event)
+
+    return actual_history
+
+
 def compute_context(history: List[dict]):
     """Computes the context given a history of events.
 
@@ -700,6 +707,10 @@ def compute_context(history: List[dict]):
         "last_user_message": None,
         "last_bot_message": None,
     }
+
+    # The context must be computed on the same history the flows are run on, i.e.,
+    # without the turns that were hidden (e.g. after an internal error).
+    history = _apply_history_alterations(history)
 
     for event in history:
         if event["type"] == "ContextUpdate":
